@@ -535,12 +535,24 @@ impl Link {
     fn rand_partition(&self, global: &config::MessageLoss, rand: &mut dyn RngCore) -> bool {
         let config = self.config.message_loss.as_ref().unwrap_or(global);
         let fail_rate = config.fail_rate;
+        #[cfg(turmoil_verif)]
+        if fail_rate > 0.0 && fail_rate < 1.0 {
+            if let Some(c) = crate::verif::choose("link-fail-coin", 2) {
+                return c == 1;
+            }
+        }
         fail_rate > 0.0 && rand.random_bool(fail_rate)
     }
 
     fn rand_repair(&self, global: &config::MessageLoss, rand: &mut dyn RngCore) -> bool {
         let config = self.config.message_loss.as_ref().unwrap_or(global);
         let repair_rate = config.repair_rate;
+        #[cfg(turmoil_verif)]
+        if repair_rate > 0.0 && repair_rate < 1.0 {
+            if let Some(c) = crate::verif::choose("link-repair-coin", 2) {
+                return c == 1;
+            }
+        }
         repair_rate > 0.0 && rand.random_bool(repair_rate)
     }
 
@@ -548,6 +560,11 @@ impl Link {
         let config = self.config.latency.as_ref().unwrap_or(global);
 
         let mult = config.latency_distribution.sample(rand);
+        #[cfg(turmoil_verif)]
+        let mult = match crate::verif::choose("latency-variate", crate::verif::LATENCY_MULTS.len()) {
+            Some(c) => crate::verif::LATENCY_MULTS[c],
+            None => mult,
+        };
         let range = (config.max_message_latency - config.min_message_latency).as_millis() as f64;
         let delay = config.min_message_latency + Duration::from_millis((range * mult) as _);
 
